@@ -1105,6 +1105,16 @@ func (p *Parser) parseAnyClass(expr bool) (classDecl *ClassDecl) {
 			privates[private] |= kind
 		}
 	}
+	if expr && classDecl.Name != nil {
+		// the name of a class expression is bound inside the class only: uses of it in the class body refer to the class
+		for i, v := range classDecl.Scope.Undeclared {
+			if 0 < v.Uses && v.Decl == NoDecl && bytes.Equal(v.Data, classDecl.Name.Data) {
+				classDecl.Name.Uses += v.Uses
+				v.Link = classDecl.Name
+				classDecl.Scope.Undeclared[i] = classDecl.Name
+			}
+		}
+	}
 	p.exitScope(parent)
 	return
 }
